@@ -84,11 +84,48 @@ def chain_loop(rng):
     return f'int f(int a,int b,int c,int d,int t,int n,int i){{ {loop} }}'
 
 
+def shift_loop(rng, plain=False):
+    """a loop whose body moves values one stage per iteration along a path of 3-6 distinct variables
+    (`a = b; b = c; c = d; ...`), optionally squaring / adding on the way or closing the path into a
+    rotation: the closure needs walks of EVERY length up to the path length and no variable on the
+    path keeps its own value -- nothing but the k-th power of the body relation shows the k-th stage"""
+    vs = ['a', 'b', 'c', 'd', 'e', 'g']
+    k = rng.randint(3, 6)
+    path = rng.sample(vs, k)
+    stmts = []
+    nbin = 0
+    for i in range(k - 1):
+        src = path[i + 1]
+        r = rng.random()
+        if r < 0.7 or nbin >= 2:
+            stmts.append(f'{path[i]} = {src};')
+        else:
+            nbin += 1
+            other = src if r < 0.85 else rng.choice(path)
+            stmts.append(f'{path[i]} = {src} {rng.choice("+*")} {other};')
+    if rng.random() < 0.3:
+        # rotation through the first variable
+        stmts = [f'{path[-1]} = {path[0]};'] + stmts if rng.random() < 0.5 else stmts + [f'{path[-1]} = {path[0]};']
+    if rng.random() < 0.25:
+        rng.shuffle(stmts)
+    body = ' '.join(stmts)
+    kind = rng.random()
+    if plain or kind < 0.6:
+        loop = f'while (t) {{ {body} }}'
+    elif kind < 0.8:
+        loop = f'do {{ {body} }} while (t);'
+    else:
+        loop = f'for (i = 0; i < n; i++) {{ {body} }}'
+    return f'int f(int a,int b,int c,int d,int e,int g,int t,int n,int i){{ {loop} }}'
+
+
 def gen_sources(ctx, n, opts_fn):
     rng = ctx.rng
     out = list(CORPUS_SRC)
     for _ in range(max(6, n // 4)):
         out.append(chain_loop(rng))
+    for _ in range(max(6, n // 5)):
+        out.append(shift_loop(rng))
     for i in range(n):
         src, g = gen_function(rng, opts_fn(i))
         out.append(src)
